@@ -40,4 +40,8 @@ Fixpoint iterz (n : nat) (x : N) : N := match n with O => x | S k => iterz k (zs
 Fixpoint singles_aux (n : nat) (cur z : N) (out : list N) : list N :=
   match n with O => out | S m => singles_aux m (zstep cur) z (N.lxor z cur :: out) end.
 Definition singles_fast (L : nat) : list N := singles_aux (8 * L) poly (iterz (8 * L) init) [].
+
+(* a transmission error: bit j (0 = most significant) of byte i flipped *)
+Definition flip (bs : bytes) (i j : nat) : bytes :=
+  firstn i bs ++ [N.lxor (nth i bs 0) (2 ^ (7 - N.of_nat j))] ++ skipn (S i) bs.
 End Crc32.
